@@ -19,6 +19,7 @@ FORBIDDEN_EXTRA = {"__getattr__", "__getattribute__", "__setattr__", "__len__", 
 
 
 def check(ctx):
+    ctx.rule("R-C14.7", "attribute fields of the specification receive plain values from the parser, never nodes (a node there is outside the child relation the traversal walks)")
     ctx.rule("R-C14.1", "class shapes: __init__ params/assignments, __slots__, attr_names, children(), __iter__ follow the cfg entry order (singles before sequences)")
     ctx.rule("R-C14.2", "_ast_gen.py: classification of entries and template loops emit singles before sequences with the specified guards; prologue agrees with c_ast.py")
     ctx.rule("R-C14.3", "NodeVisitor.visit dispatches on 'visit_'+class name via the instance with generic_visit as only fallback; generic_visit / show recurse once per children() element; show writes one line")
@@ -212,6 +213,42 @@ def check(ctx):
     _check_visit(ctx, mod, nv, viol)
     _check_generic_visit(ctx, mod, nv, viol)
     _check_show(ctx, mod, models.get("Node"), viol)
+    # ---- R-C14.7: attribute (non-child) fields hold plain values: a node stored there is invisible to children() / NodeVisitor / show() ----
+    from .. import wirecheck as WC14
+    cur14 = WC14.current()
+    spec14 = {n_: dict(ents) for n_, ents, _ in A.parse_cfg()}
+    ncls = {}
+
+    def node_classes(meth, seen=()):
+        if meth in ncls:
+            return ncls[meth]
+        if meth in seen or meth not in cur14:
+            return set()
+        out = set()
+        for r in cur14[meth]["returns"]:
+            if r.startswith("new:"):
+                out.add(r[4:].split("#")[0])
+            elif r.startswith("_parse_"):
+                out |= node_classes(r.split("#")[0], seen + (meth,))
+        ncls[meth] = out
+        return out
+    n147 = 0
+    for meth, info in sorted(cur14.items()):
+        for lab, fa in info["records"]:
+            cls = lab.split(">")[-1]
+            for f_, kind in spec14.get(cls, {}).items():
+                if kind != "attr":
+                    continue
+                for v in fa.get(f_, []):
+                    base = v.split("#")[0]
+                    holds = {v[4:].split("#")[0]} if v.startswith("new:") else (node_classes(base) if base.startswith("_parse_") and "." not in v and "[" not in v else set())
+                    n147 += 1
+                    ctx.oblige("R-C14.7", f"{meth}: {cls}.{f_} <- {v}", not holds, nontrivial=True, sample={"rule": "R-C14.7", "method": meth, "attribute": f"{cls}.{f_}", "receives": v, "node classes": sorted(holds)} if holds or n147 % 29 == 0 else None)
+                    if holds:
+                        ctx.violation("R-C14.7", f"node-in-attribute:{cls}.{f_}:{base}", f"{meth} stores a {sorted(holds)} node in {cls}.{f_}, which _c_ast.cfg declares as a plain attribute: children(), iteration, NodeVisitor.generic_visit and show() "
+                                      "do not reach that node (show() prints its multi-line repr as the attribute value)", file="pycparser/c_parser.py", function=f"CParser.{meth}")
+    ctx.require_instances("R-C14.7", 40)
+
     ctx.info["explanation"] = ("exhaustive obligation table: 49 specified classes x 6 shape obligations (plus existence / listing), "
                                "template-structure obligations on _ast_gen.py, and dispatch / recursion-shape obligations on NodeVisitor and Node.show")
     ctx.info["exhaustive"] = True
